@@ -97,7 +97,10 @@ end
 mutual
 /-- decorate a view tree with distinct node ids (a counter in reading order): the hypothesis of the graph theorems -/
 partial def decorate (n : Nat) : Term → Option (IView × Nat)
-  | .mk nm [] => nm.toNat?.map fun i => (.leaf n i, n + 1)
+  | .mk nm [] =>
+      -- `a<j>`: leaf behind view::alias(x_j, j): node id j, shared by every occurrence; `<j>`: un-aliased occurrence, fresh id
+      if nm.startsWith "a" then (nm.drop 1).toString.toNat?.map fun i => (.leaf i i, n)
+      else nm.toNat?.map fun i => (.leaf n i, n + 1)
   | .mk _ as => do
       let (args, n') ← decorateArgs n as
       pure (.node n' args, n' + 1)
@@ -111,7 +114,7 @@ end
 
 def labelStr : GLabel → String
   | .leaf i => s!"L{i}"
-  | .op k => s!"F{k}"
+  | .op ids => s!"F{ids.length}[{"/".intercalate (ids.map toString)}]"
 
 def handle : Handler := fun op a =>
   match op with
@@ -140,7 +143,7 @@ def handle : Handler := fun op a =>
       pure s!"ok leaves={fmtNats ops} ll={if v.leftLinear then 1 else 0} nfun={v.compile.length} term={res} view={v.denote env}"
   | "c14_graph" => orBad do
       let t ← (a.get? "tree").bind parse
-      let (iv, _) ← decorate 0 t
+      let (iv, _) ← decorate 1000 t
       match iv.graph with
       | none => pure "no-graph"
       | some g =>
